@@ -129,3 +129,15 @@ def long_run(ctx, klass):
         args = {"unsat": (v[1], v[0], r["ops"]), "mism": (v[0], r["ops"], v[1]), "wrong": (v[0], r["ops"]) + tuple(v[1:])}[klass]
         ctx.violation({"klass": {"unsat": "unsat", "mism": "value!=wire", "wrong": "wrong-value"}[klass], "via": "long-run"},
                       {"long_run": [r["ops"], 8], "p": REC.BN128}, text % args)
+
+
+def structured_sweep(ctx, oracle_path, modes, fxp=True):
+    """Depth-1 programs on STRUCTURED interior values at the default bitlength 16 (thorough: also 8 and 32, all modes):
+    every power of two and all-ones value, byte multiples, alternating bit patterns, small multipliers, each against a
+    companion set (itself, its negative, neighbours, small numbers, range boundaries) - where special-case fast paths live."""
+    from .. import e1
+    cfgs = [(16, REC.BN128, E.Structured(16))]
+    if ctx.thorough:
+        cfgs += [(8, REC.BLS12_381, E.Structured(8)), (32, REC.CURVE25519, E.Structured(32))]
+    quick_modes = tuple(m for m in ("plain", "g0") if m in modes)      # live code and dead code (fast paths forget the guard)
+    e1.sweep(ctx, E.depth1_programs(include_fxp=fxp), cfgs, oracle_path, modes=modes if ctx.thorough else quick_modes)
